@@ -40,11 +40,6 @@ inductive RState where
   | out
   | txt (tag : Text) (first : Line) (revRest : List Line)
 
-def finishText (first : Line) (revRest : List Line) (last : Line) : Value :=
-  match (last :: revRest).reverse with
-  | [] => .text first []
-  | _ :: more => .text first more
-
 /-- The reader. `none` = not a tag-value document. -/
 def read : RState → List Line → Option (List Entry)
   | .out, [] => some []
@@ -71,6 +66,9 @@ def read : RState → List Line → Option (List Entry)
 def readDoc (ls : List Line) : Option (List Entry) := read .out ls
 
 def isTagValueDoc (ls : List Line) : Bool := (readDoc ls).isSome
+
+/-- Entries carrying a given tag. -/
+def hasTag (t : Text) (e : Entry) : Bool := e.tag == t
 
 -- ---------------------------------------------------------------- side conditions
 
